@@ -65,11 +65,16 @@ def gen_maps(rng, chroms=None, max_markers=10, steep=None):
         if rng.random() < 0.3:
             chroms.append("X")
     maps = {}
+    # cM coordinates restart at 0 on every chromosome, start at an arbitrary offset, or run on cumulatively
+    style = rng.choice(["zero", "zero", "offset", "cumulative"])
+    carry = 0
     for c in chroms:
         nm = rng.randint(2, max_markers)
         bps = sorted(rng.sample(range(100, 100000), nm))
-        steps = [0] + [rng.choice([0, 5, 40, 150, 400] if steep is None else steep) for _ in range(nm - 1)]
+        first = 0 if style == "zero" else (rng.choice([3, 50, 700]) if style == "offset" else carry + rng.choice([0, 10]))
+        steps = [first] + [rng.choice([0, 5, 40, 150, 400] if steep is None else steep) for _ in range(nm - 1)]
         cms = list(np.cumsum(steps))
+        carry = int(cms[-1])
         maps[c] = [(int(b), int(m)) for b, m in zip(bps, cms)]
     return chroms, maps
 
